@@ -17,6 +17,7 @@ def harnesses(tier):
         hs += [('uq', ('XV_RECL=STAMP',), False, '_stamp'), ('uq', ('XV_RECL=LFRC', 'XV_NO_KF'), False, '_lfrc'), ('hm', ('XV_RECL=EBR',), False, '_ebr'), ('vhm', ('XV_RECL=EBR',), False, '_ebr')]
     return hs
 HARNESSES = harnesses('quick')
+PROPERTY_FILES = ['Properties_C16', 'Properties_C16_models']
 THEOREM_NOTES = {
     'scope': 'solo-termination theorems hold for the five step-level models (chase deque both policies, left_right read, vyukov weak operations, michael_scott push/pop over the GC reclaimer, seqlock load with slots > 1) for every reachable state, with explicit bounds; the *_blocking theorems exhibit the documented exceptions; all other containers and the reclaimers are covered by the solo search only',
     'bounds used as tie': 'chase fixed 8, michael_scott (GC) 12, left_right read 7, vyukov weak 5, seqlock load 2*words+4: the implementation is run solo with exactly these budgets',
